@@ -65,7 +65,10 @@ def _group(job):
     cm, c8 = job
     uf, ub, wd, rd = c8
     m = O.period_closed_form(cm, uf, wd, rd)
-    ns = sorted({1, 2, m, m + 1, m + 2, 2 * m, 2 * m + 1, 2 * m + 2, 3 * m + 1, 4 * m + (cm % 3), 6 * m + 3} | {max(1, (m * q) // 4 + 1) for q in (5, 9, 14)})
+    if c8[3] == 0 and c8[0] == 8 and c8[2] % 8 == 0 and c8[2] >= 16 * 8:
+        ns = sorted({m + 1, m + 2, 2 * m + 2, 3 * m + 1})          # ratio staircase sweep: a few n per cost vector
+    else:
+        ns = sorted({1, 2, m, m + 1, m + 2, 2 * m, 2 * m + 1, 2 * m + 2, 3 * m + 1, 4 * m + (cm % 3), 6 * m + 3} | {max(1, (m * q) // 4 + 1) for q in (5, 9, 14)})
     ns = [n for n in ns if 1 <= n <= 700]
     return {"job": [cm, c8], "m": m, "runs": [_one(cm, c8, n, m) for n in ns]}
 
@@ -120,10 +123,14 @@ def run(prop, args):
                 for split in (0, 1, 2):
                     wd = (tot * split) // 2
                     grid.append((cm, (uf, 8 if split else 24, wd, tot - wd)))
+    # every integer ratio (wd+rd)/uf = 0..130 (uf = 1): the whole staircase of the closed form, cm = 1..4/6
+    for cm in range(1, (4 if tier == "quick" else 6) + 1):
+        for ratio in range(0, 131):
+            grid.append((cm, (8, 8, 8 * ratio, 0)))
     grid = [g for g in sorted(set(grid)) if O.period_closed_form(g[0], g[1][0], g[1][2], g[1][3]) <= 100]
     jobs = grid + [g for g in _gen((tier, args.seed, 60 if tier == "quick" else 4000)) if g not in set(grid)]
     res = R.pmap(_group, [(cm, list(c8)) for cm, c8 in jobs], chunksize=1)
-    rep.exhaustive = [{"box": "cost grid cm in 1..4 x uf in {.5,1,2} x (wd+rd) in {0..15} x 3 splits (includes integer ratios (wd+rd)/uf where the closed form's <= matters)",
+    rep.exhaustive = [{"box": "cost grid cm in 1..4 x uf in {.5,1,2} x (wd+rd) in {0..15} x 3 splits (includes integer ratios (wd+rd)/uf where the closed form's <= matters) + every integer ratio 0..130 for cm in 1..4/6 (period <= 100)",
                        "cases": len(grid), "exhaustive": True}]
     boundary = 0
     for g in res:
